@@ -45,18 +45,48 @@ func decIDs(tok string) []string {
 	return l
 }
 
+// fakeAuthn is a configured security.Authenticator with a scripted answer: a caller with identities,
+// an error, (nil, nil), or a caller together with an error (which must not count as success).
 type fakeAuthn struct {
-	ids []string
-	err error
+	ids       []string
+	err       error
+	nilCaller bool
 }
 
 func (f fakeAuthn) Authenticate(security.AuthContext) (*security.Caller, error) {
-	if f.err != nil {
+	if f.nilCaller {
 		return nil, f.err
 	}
-	return &security.Caller{Identities: f.ids}, nil
+	return &security.Caller{Identities: f.ids}, f.err
 }
 func (f fakeAuthn) AuthenticatorType() string { return "verif" }
+
+// decAuthn decodes one authenticator answer token: `err` = (nil, error), `nil` = (nil, nil),
+// `both:<ids>` = (caller, error), otherwise `<ids>` = (caller, nil).
+func decAuthn(tok string) fakeAuthn {
+	switch {
+	case tok == "err":
+		return fakeAuthn{nilCaller: true, err: errors.New("rejected")}
+	case tok == "nil":
+		return fakeAuthn{nilCaller: true}
+	case strings.HasPrefix(tok, "both:"):
+		return fakeAuthn{ids: wire.DecList(tok[5:]), err: errors.New("rejected")}
+	}
+	return fakeAuthn{ids: wire.DecList(tok)}
+}
+
+// genAuthnResult scripts one authenticator for a client claiming (ns, sa).
+func genAuthnResult(r *wire.Rng, ns, sa string) string {
+	switch r.Intn(12) {
+	case 0, 1:
+		return "err"
+	case 2:
+		return "nil"
+	case 3:
+		return "both:" + genIDListFor(r, ns, sa, false)
+	}
+	return genIDListFor(r, ns, sa, false)
+}
 
 func peerCtx(kind string) context.Context {
 	ctx := context.Background()
@@ -126,11 +156,7 @@ func (a *authSUT) apply(f []string) string {
 		defer func() { features.XDSAuth, security.AuthPlaintext = oldA, oldP }()
 		s := &pxds.DiscoveryServer{}
 		for _, r := range f[4:] {
-			if r == "err" {
-				s.Authenticators = append(s.Authenticators, fakeAuthn{err: errors.New("rejected")})
-			} else {
-				s.Authenticators = append(s.Authenticators, fakeAuthn{ids: wire.DecList(r)})
-			}
+			s.Authenticators = append(s.Authenticators, decAuthn(r))
 		}
 		ids, err := pxds.VerifC11Authenticate(s, peerCtx(f[2]))
 		if err != nil {
@@ -284,11 +310,7 @@ func genAuth(seed uint64, n int, outp string) {
 				peerKind := wire.Pick(r, []string{"none", "plain", "tls", "tls", "tls"})
 				toks := []string{"authn", wire.B(r.Chance(5, 6)), peerKind, wire.B(r.Chance(1, 5))}
 				for j, m := 0, r.Intn(4); j < m; j++ {
-					if r.Chance(1, 3) {
-						toks = append(toks, "err")
-					} else {
-						toks = append(toks, genIDList(r, false))
-					}
+					toks = append(toks, genAuthnResult(r, wire.Pick(r, nsUniverse), wire.Pick(r, saUniverse)))
 				}
 				out.Line(toks...)
 			default:
